@@ -205,7 +205,10 @@ func (mv mapValue) PropertyValue(iv Value) Value {
 	if !ir.IsValid() {
 		return nilValue
 	}
-	er := mr.MapIndex(ir)
+	var er reflect.Value
+	if kt := mr.Type().Key(); ir.Type().ConvertibleTo(kt) && ir.Type().Comparable() {
+		er = mr.MapIndex(ir.Convert(kt))
+	}
 	switch {
 	case er.IsValid():
 		return ValueOf(er.Interface())
